@@ -83,14 +83,15 @@ fn bigexcess(kind: char, regime_beyond: bool) -> Scenario {
             for _ in 0..6 {
                 c.sync();
             }
+            // (measured here: maintenance runs with nothing at all in the logs must have
+            // removed the excess already - an idle cache does not stay above its capacity)
+            let held_idle: u64 = c.iter().map(|e| *e.value() as u64).sum();
             // lookups are "following operations" too
             for i in 0..10 {
                 let _ = c.get(&i);
             }
             c.sync();
-            // (measured here: maintenance runs without any write in them must have
-            // removed the excess already)
-            let held_before: u64 = c.iter().map(|e| *e.value() as u64).sum();
+            let held_before: u64 = held_idle.max(c.iter().map(|e| *e.value() as u64).sum());
             // ... and so is the insert of a new key while the excess may still be there
             c.insert(5000, 1);
             c.sync();
@@ -452,7 +453,9 @@ pub fn scenarios(filter: &str) -> Vec<Scenario> {
         out.push(hugeweights('U'));
     }
     // key / value types other than the search engines' own (typex.rs)
-    if filter.starts_with("types") {
+    if filter.starts_with("types1cpu") {
+        out.extend(crate::typex::scenarios_1cpu().into_iter().filter(|s| s.name.starts_with(filter)));
+    } else if filter.starts_with("types") {
         out.extend(crate::typex::scenarios().into_iter().filter(|s| s.name.starts_with(filter)));
     }
     out
